@@ -859,16 +859,19 @@ def _cases_deep():
                         out.append(("case_seq", {"geom": geom, "mix": mix, "wt": wt, "subsets": ext[i:i + 8], "k": k}))
                     # data + noise symbolic: 3 noise pixels as in quick, and 5 (w-tilde) / ALL (mapping) noise pixels
                     out.append(("case_seq", {"geom": geom, "mix": mix, "wt": wt, "subsets": NOISE_SUBSETS, "k": 2, "noise_sym": True}, SLOW))
-                    if small:
+                    # (5 symbolic noise pixels in the w-tilde formalism were tried and backed out: the kernels' `value > 0`
+                    # feasibility queries come back unknown for some mixes and the path cap is hit)
+                    if small and not wt:
                         out.append(("case_seq", {"geom": geom, "mix": mix, "wt": wt, "subsets": NOISE_SUBSETS, "k": 2,
-                                                 "noise_sym": 5 if wt else 99}, SLOW))
+                                                 "noise_sym": 99}, SLOW))
                     for i in range(0, len(subs), 16):
                         out.append(("case_seq", {"geom": geom, "mix": mix, "wt": wt, "subsets": subs[i:i + 16], "k": 2, "donor_wt": not wt}))
-                if small and mix in ("M", "FM", "MM", "OM"):
+                # (not for 'tiny': F ~ 1e9 against H ~ 1 makes the degenerate-solution test ill-conditioned in float64)
+                if small and geom != "tiny" and mix in ("M", "FM", "MM", "OM"):
                     out.append(("case_seq", {"geom": geom, "mix": mix, "wt": wt, "subsets": [["curvature_matrix"], list(SLOTS)],
                                              "k": 3, "check": True}, SLOW))
             out.append(("case_factory", {"geom": geom, "mix": mix}))
-            if small and mix in ("M", "FM", "MM"):
+            if small and geom != "tiny" and mix in ("M", "FM", "MM"):
                 out.append(("case_factory", {"geom": geom, "mix": mix, "check": True}, SLOW))
         for mix in DEEP_HETERO:
             for wt in (True, False):
